@@ -587,6 +587,8 @@ def evaluate(chk, pairs):
         g = next(iter(genes.values()))
         facts = yaml_facts(g._yml)
         badn = [n for n, e in facts["alleles"].items() if any(ch in (n + (e["label"] or "")) for ch in ":#")]
+        # premise of C09_partials_retained (Catalogue hash_free: no '#' in an allele name after common.allele_name)
+        chk.count(stream, "hash_free-holds" if not any("#" in n for n in facts["alleles"]) else "hash_free-does-not-hold")
         if badn:
             chk.count(stream, "names with ':' or '#'", len(badn))
             if shipped:
